@@ -287,3 +287,80 @@ var AwaitResolve = &core.Rule{Name: "R-AWAITRESOLVE", Run: func(p *core.Prog) *c
 	}
 	return res
 }, Doc: "asyncRunner.step calls PromiseResolve for the awaited value under vm.try and throws a failure into the function body"}
+
+// R-DATANESS (C04): whether a property record is a data property is recorded in
+// valueProperty.accessor. `value != nil` is not the same thing: the array's length property keeps its
+// value lazily (filled by getLengthProp()), so a record handed out by the key iterator has
+// value == nil although it is a writable data property - Object.isFrozen([]) after preventExtensions
+// answered true.
+// Rule: no condition tests valueProperty.value against nil in the same short-circuit chain in which
+// it reads the writable flag of the same record (IsDataDescriptor spelled through the value).
+var Dataness = &core.Rule{Name: "R-DATANESS", Run: func(p *core.Prog) *core.Result {
+	res := core.NewResult("R-DATANESS", 0)
+	valueF, err := p.Field(core.GojaPath, "valueProperty", "value")
+	if err != nil {
+		return res.Fail(err)
+	}
+	wrF, err := p.Field(core.GojaPath, "valueProperty", "writable")
+	if err != nil {
+		return res.Fail(err)
+	}
+	n := 0
+	seen := map[string]int{}
+	for _, f := range p.Funcs {
+		if !p.InModule(f) {
+			continue
+		}
+		for _, b := range f.Blocks {
+			c := ifCond(b)
+			if c == nil {
+				continue
+			}
+			x, _, isNil := core.IsNilCompare(c)
+			if !isNil {
+				continue
+			}
+			ld, ok := x.(*ssa.UnOp)
+			if !ok || core.FieldOf(ld.X) != valueF {
+				continue
+			}
+			rec := ld.X.(*ssa.FieldAddr).X
+			n++
+			// the same chain reads .writable of the same record?
+			readsWritable := false
+			for _, cb := range condChain(b) {
+				collectFieldLoads(ifCond(cb), func(fa *ssa.FieldAddr) {
+					if core.FieldOf(fa) == wrF && fa.X == rec {
+						readsWritable = true
+					}
+				})
+			}
+			if !readsWritable {
+				continue
+			}
+			k := core.FuncName(f) + ":data-ness of a property record decided by .accessor"
+			seen[k]++
+			key := k
+			if seen[k] > 1 {
+				key = fmt.Sprintf("%s#%d", k, seen[k])
+			}
+			res.Bad(key, p.Pos(c.Pos()), "`value != nil && writable` stands for \"writable data property\", but a record's value can be nil without it being an accessor (the array's length property fills it lazily): test !accessor")
+		}
+	}
+	res.Count("nil tests of valueProperty.value", n)
+	return res
+}, Doc: "no condition decides that a property record is a data property by value != nil when reading its writable flag"}
+
+func collectFieldLoads(v ssa.Value, f func(*ssa.FieldAddr)) {
+	for i := 0; i < 4 && v != nil; i++ {
+		u, ok := v.(*ssa.UnOp)
+		if !ok {
+			return
+		}
+		if fa, ok := u.X.(*ssa.FieldAddr); ok {
+			f(fa)
+			return
+		}
+		v = u.X
+	}
+}
